@@ -459,6 +459,40 @@ func buildC02(tier string) *core.Plan {
 			}
 		}})
 
+	// two chains with the same file names in different directories merged into one parser:
+	// the second chain must only ever touch its own documents
+	tcBases := c02Streams(c02BaseDocs[:4], 2)
+	ntb := int64(len(tcBases))
+	spaces = append(spaces, core.Space{Name: "files-two-chains-same-names", N: ntb * ntb,
+		Desc: func(i int64) any { return map[string]any{"one/svc.yaml": tcBases[i/ntb], "two/svc.yaml": tcBases[i%ntb], "two/svc.prod.yaml": "every layer of <=2 documents"} },
+		Run: func(c *core.Ctx, i int64) {
+			b1, b2 := tcBases[i/ntb], tcBases[i%ntb]
+			for li, l2 := range fl1 {
+				if !thorough && li%4 != int(i%4) {
+					continue
+				}
+				c02TwoChains(c, b1, b2, l2)
+			}
+		}})
+	// three-document bases through files (the parent file's document slice has spare capacity)
+	fb3 := c02Streams(c02BaseDocs[:3], 3)
+	var only3 [][]any
+	for _, b := range fb3 {
+		if len(b) == 3 {
+			only3 = append(only3, b)
+		}
+	}
+	n3 := int64(len(only3))
+	spaces = append(spaces, core.Space{Name: "files-3doc-bases", N: n3 * nfl,
+		Desc: func(i int64) any { return map[string]any{"base": only3[i/nfl], "layer1": fl1[i%nfl], "then": "7 second layers"} },
+		Run: func(c *core.Ctx, i int64) {
+			base, a := only3[i/nfl], fl1[i%nfl]
+			c02Files(c, "yaml", base, [][]c02Doc{a})
+			for _, b := range l2[:7] {
+				c02Files(c, "yaml", base, [][]c02Doc{a, b})
+			}
+		}})
+
 	return &core.Plan{
 		Spaces: spaces,
 		Rule: "every history = base stream x sequence of layers (each layer a list of child documents with a document-level selector and a unique marker body); " +
@@ -551,4 +585,87 @@ func c02Files(c *core.Ctx, ext string, base []any, layers [][]c02Doc) {
 		return
 	}
 	c.Outcome("files-ok")
+}
+
+// c02TwoChains: one/svc.yaml <- one/svc.prod.yaml, then two/svc.yaml <- two/svc.prod.yaml into the same parser.
+func c02TwoChains(c *core.Ctx, b1, b2 []any, layer2 []c02Doc) {
+	dir := scratchDir()
+	defer os.RemoveAll(dir)
+	f, _ := bkl.GetFormat("yaml")
+	write := func(sub, name string, docs []any) bool {
+		os.MkdirAll(filepath.Join(dir, sub), 0o755)
+		b, err := f.MarshalStream(docs)
+		if err != nil {
+			return false
+		}
+		return os.WriteFile(filepath.Join(dir, sub, name), b, 0o644) == nil
+	}
+	l1 := []any{map[string]any{"one": 1}}
+	var l2 []any
+	for _, d := range layer2 {
+		l2 = append(l2, d.data())
+	}
+	if !write("one", "svc.yaml", b1) || !write("one", "svc.prod.yaml", l1) || !write("two", "svc.yaml", b2) || !write("two", "svc.prod.yaml", l2) {
+		return
+	}
+	s := &ref.Stream{}
+	n := 0
+	verdict := ref.Accept
+	chain := func(base, layer []any) {
+		var prev []*ref.Doc
+		for _, docs := range [][]any{base, layer} {
+			var cur []*ref.Doc
+			for _, d := range docs {
+				rd := &ref.Doc{ID: fmt.Sprintf("T%d", n), Data: core.Clone(d), Parents: append([]*ref.Doc{}, prev...)}
+				n++
+				cur = append(cur, rd)
+				if verdict == ref.Accept {
+					res, _ := s.MergeDocument(rd)
+					verdict = res.V
+				}
+			}
+			prev = cur
+		}
+	}
+	chain(b1, l1)
+	chain(b2, l2)
+	c.Eval()
+	c.Trans(4)
+	p := newParser()
+	err := p.MergeFileLayers(filepath.Join(dir, "one", "svc.prod.yaml"))
+	if err == nil {
+		err = p.MergeFileLayers(filepath.Join(dir, "two", "svc.prod.yaml"))
+	}
+	wit := "two chains: " + core.Canon(b1) + " | " + core.Canon(b2) + " <- " + core.Canon(l2)
+	switch verdict {
+	case ref.Unspec:
+		c.Unspec()
+		return
+	case ref.Reject:
+		c.Validated()
+		if err == nil {
+			if _, oerr := p.OutputDocuments(); oerr == nil {
+				c.Fail("refStream-two-chains", "silently-accepted", wit, map[string]any{"documents": docData(p)})
+			}
+		}
+		c.Outcome("two-chains-rejected")
+		return
+	}
+	c.Validated()
+	c.NontrivialSub()
+	if err != nil {
+		c.Fail("refStream-two-chains", "wrongly-rejected", wit, map[string]any{"error": errStr(err)})
+		return
+	}
+	got := docData(p)
+	want := make([]any, len(s.Docs))
+	for i, d := range s.Docs {
+		want[i] = d.Data
+	}
+	if !core.Equal(got, want) {
+		c.Outcome("CHAINS-INTERFERE")
+		c.Fail("refStream-two-chains", "wrong-stream", wit, map[string]any{"got": got, "want": want})
+		return
+	}
+	c.Outcome("two-chains-ok")
 }
